@@ -54,3 +54,55 @@ func VH_C12_ps_fallback_dash_Q() {
 		vAssertI("C12.ps.fallback.dash_pattern_scaled_like_rasterizer", len(c.d) == 2 && c.d[0] == wantD[0] && c.d[1] == wantD[1] && c.offset == wantOff)
 	}
 }
+
+// C12 ("the unit conversions"): PostScript's default user space unit is 1/72 inch (PLRM 4.3.1).  A
+// canvas of W x H millimetres therefore has to come out W*72/25.4 by H*72/25.4 units large: either
+// the %%BoundingBox states that size (and the program scales its millimetre coordinates
+// accordingly), as the PDF back-end does with its MediaBox.  Symbolic W, H; the header is read
+// from the recorded Fprintf calls (engine) or from the text (natively).
+func VH_C12_ps_units_Q() {
+	vhC12Stubs()
+	w, h := vNondetDyadic(9, 1), vNondetDyadic(9, 1)
+	vAssume(1 <= w && w <= 200 && 1 <= h && h <= 200)
+	buf := &bytes.Buffer{}
+	New(buf, w, h, nil)
+	var bw, bh float64
+	found := false
+	if vhC12Recorded {
+		// the operands of all verbs so far, in order: ..., creation date, width, height
+		n := len(vhC12Args)
+		if n >= 2 {
+			if a, ok := vhC12Args[n-2].(dec); ok {
+				if b, ok2 := vhC12Args[n-1].(dec); ok2 {
+					bw, bh, found = float64(a), float64(b), true
+				}
+			}
+		}
+	} else {
+		s := buf.String()
+		key := "%%BoundingBox: 0 0 "
+		for i := 0; i+len(key) <= len(s); i++ {
+			if s[i:i+len(key)] == key {
+				j := i + len(key)
+				k := j
+				for k < len(s) && s[k] != '\n' {
+					k++
+				}
+				sp := j
+				for sp < k && s[sp] != ' ' {
+					sp++
+				}
+				a, oka := vhC12ParseNum(s[j:sp])
+				b, okb := vhC12ParseNum(s[sp+1 : k])
+				bw, bh, found = a, b, oka && okb
+			}
+		}
+	}
+	vAssert("C12.ps.units.bounding_box_present", found)
+	if !found {
+		return
+	}
+	near := func(a, b float64) bool { return a-b <= 1e-4*(1+b) && b-a <= 1e-4*(1+b) }
+	vKnown("D63", true)
+	vAssert("C12.ps.units.page_size_in_points", near(bw, w*72/25.4) && near(bh, h*72/25.4))
+}
